@@ -539,13 +539,66 @@ pub fn roots(tier: Tier) -> Vec<State> {
     out
 }
 
+
+/// The airfoil helper that cuts a closed section at the two ends of a station's spanning ray and returns
+/// the piece shorter than the requested fraction of the perimeter (first candidate: from the ray's origin
+/// forward to its end; second: the complement). Swept over rectangles x every pair of cut positions on a
+/// grid of arc lengths x fractions; the reference is plain arithmetic on the two arc lengths.
+fn judge_edge_sub_curve(case: &(usize, usize, usize, usize), l: &mut Local) {
+    use engeom::airfoil::helpers::extract_edge_sub_curve;
+    use engeom::airfoil::InscribedCircle;
+    use engeom::geom2::polyline2::SpanningRay;
+    let (shape, i, j, fi) = *case;
+    let (w, h) = [(10.0, 2.0), (3.0, 3.0), (1.0, 6.0)][shape];
+    let pts = vec![Point2::new(0.0, 0.0), Point2::new(w, 0.0), Point2::new(w, h), Point2::new(0.0, h)];
+    let sec = Curve2::from_points(&pts, 1e-6, true).unwrap();
+    let per = sec.length();
+    let n = 24;
+    let (la, lb) = (per * (i as f64 + 0.37) / n as f64, per * (j as f64 + 0.37) / n as f64);
+    let mk = || json!({"state": {"pts": [[0.0, 0.0], [w, 0.0], [w, h], [0.0, h]], "tol": 1e-6}, "action": "edge_sub_curve", "args": [la, lb, fi as f64]});
+    let (a, b) = (sec.at_length(la).unwrap().point(), sec.at_length(lb).unwrap().point());
+    if d2(&a, &b) < 1e-9 {
+        return;
+    }
+    let frac = [None, Some(0.1), Some(0.4), Some(0.6)][fi];
+    let f = frac.unwrap_or(0.25);
+    let centre = Point2::new(0.5 * (a.x + b.x), 0.5 * (a.y + b.y));
+    let st = InscribedCircle::new(SpanningRay::new(a, b), b, a, engeom::Circle2::from_point(centre, 0.5 * d2(&a, &b)));
+    l.eval();
+    let got = match guarded(|| extract_edge_sub_curve(&sec, &st, frac)) {
+        Ok(g) => g,
+        Err(e) => {
+            l.check("edge sub-curve returns", "panic", false, mk, || e.clone());
+            return;
+        }
+    };
+    // a and b may be closest to more than one place on the outline only at corners, which the 0.37 offset avoids
+    let len0 = (lb - la).rem_euclid(per);
+    let len1 = per - len0;
+    if (len0 - f * per).abs() < 1e-9 || (len1 - f * per).abs() < 1e-9 {
+        l.gray("piece exactly at the requested fraction");
+        return;
+    }
+    let want = if len0 < f * per { Some((len0, a, b)) } else if len1 < f * per { Some((len1, b, a)) } else { None };
+    l.bucket(match (want.is_some(), len0 < f * per) { (false, _) => "no piece short enough", (true, true) => "first candidate piece", (true, false) => "second candidate piece" });
+    l.outcome(hash_of(&(want.is_some(), len0 < f * per, fi)));
+    let ok = match (&got, &want) {
+        (None, None) => true,
+        (Some(c), Some((len, p, q))) => (c.length() - len).abs() <= 1e-5 && d2(&c.at_front().point(), p) <= 1e-5 && d2(&c.at_back().point(), q) <= 1e-5,
+        _ => false,
+    };
+    l.check("the edge sub-curve is the piece between the ray's ends that is shorter than the requested fraction of the perimeter", "", ok, mk, || {
+        format!("cuts at {} and {} of perimeter {}, fraction {:?}: got {:?}, pieces {} and {}", la, lb, per, frac, got.as_ref().map(|c| (c.length(), c.at_front().point(), c.at_back().point())), len0, len1)
+    });
+}
+
 pub fn run(tier: Tier) -> i32 {
     let mut cx = Ctx::new("C04", tier, "model_checking");
-    cx.rule = "explicit-state search: initial states = every vertex sequence over the 3x3 lattice up to the length bound x {open, force-closed} x tol {1e-6, 0.05}; actions = between_lengths over all pairs of critical lengths (0, L, vertex lengths, edge mid/quarter points, vertex +-tol/2, +-2tol, +-100tol, beyond L), the control variant, both splits, both trims, reversal; every produced piece is a successor state (canonical key: vertices rounded to 1e-9, tolerance); reference model = arc-length point function by linear scan. distinct = distinct canonical states expanded".into();
+    cx.rule = "explicit-state search: initial states = every vertex sequence over the 3x3 lattice up to the length bound x {open, force-closed} x tol {1e-6, 0.05}; actions = between_lengths over all pairs of critical lengths (0, L, vertex lengths, edge mid/quarter points, vertex +-tol/2, +-2tol, +-100tol, beyond L), the control variant, both splits, both trims, reversal; every produced piece is a successor state (canonical key: vertices rounded to 1e-9, tolerance); reference model = arc-length point function by linear scan; plus the airfoil helper that selects the shorter piece between two cut positions (3 rectangles x 24 x 24 cut positions x 4 fractions). distinct = distinct canonical states expanded".into();
     let depth = 3;
     let max_states = tier.pick(6_000_000, 30_000_000);
     cx.bounds = json!({"root_seq_len": tier.pick(3, 4), "depth": depth, "max_states": max_states, "tols": [1e-6, 0.05]});
-    cx.require(&["closed state", "open state", "non-initial state", "forward", "through the seam", "end exactly on a vertex", "reversed on open", "out of range", "shorter than tolerance", "control inside", "control through the seam", "split open", "split closed", "trim", "reversal"]);
+    cx.require(&["closed state", "open state", "non-initial state", "forward", "through the seam", "end exactly on a vertex", "reversed on open", "out of range", "shorter than tolerance", "control inside", "control through the seam", "split open", "split closed", "trim", "reversal", "no piece short enough", "first candidate piece", "second candidate piece"]);
     cx.assume("well-posed = in range, not reversed on an open curve, travelled length and |l1-l0| both >= tol; requests within 1e-6*tol of the tolerance boundary, and wrap requests whose raw difference is below tol, are gray");
     cx.assume("pieces are compared with the reference piece as arc-length point functions at 17 abscissae within 4*tol (the curve constructor merges vertices within tol at either end); pieces with an edge shorter than 4*tol are judged but not expanded");
     let (l, states, _emitted, reached, capped) = bfs_par(roots(tier), |s| s.key(), expand, depth, max_states);
@@ -558,12 +611,34 @@ pub fn run(tier: Tier) -> i32 {
     if capped {
         cx.acc.cap(format!("state cap {} reached at depth {}: states beyond it were discovered but not expanded", max_states, reached));
     }
+    // the portion-selecting helper of the airfoil code
+    let mut sub = Vec::new();
+    for shape in 0..3 {
+        for i in 0..24 {
+            for j in 0..24 {
+                for fi in 0..4 {
+                    sub.push((shape, i, j, fi));
+                }
+            }
+        }
+    }
+    let ls = sweep(&sub, judge_edge_sub_curve);
+    cx.absorb(ls);
     cx.finish()
 }
 
 pub fn replay(case: &Val) -> Local {
     let c: Case = serde_json::from_value(case.clone()).expect("case");
     let mut l = Local::new();
+    if c.action == "edge_sub_curve" {
+        // the sweep item is recovered from the recorded rectangle, cut positions and fraction index
+        let (w, h) = (c.state.pts[1][0], c.state.pts[2][1]);
+        let shape = [(10.0, 2.0), (3.0, 3.0), (1.0, 6.0)].iter().position(|x| *x == (w, h)).unwrap_or(0);
+        let per = 2.0 * (w + h);
+        let idx = |x: f64| ((x / per * 24.0) - 0.37).round() as usize;
+        judge_edge_sub_curve(&(shape, idx(c.args[0]), idx(c.args[1]), c.args[2] as usize), &mut l);
+        return l;
+    }
     let mut out = Vec::new();
     // re-expanding the state re-executes the recorded action among all others
     expand(&c.state, 0, &mut l, &mut out);
